@@ -147,7 +147,8 @@ macro_rules! c06_answer_of_service {
             let mut out = DnsOutgoing::new(FLAGS_QR_RESPONSE | FLAGS_AA);
             let mut addrs = Vec::with_capacity(1);
             addrs.push(IpAddr::V4(Ipv4Addr::from(ip)));
-            add_answer_of_service(&mut out, &msg, "i.t.", &svc, $qtype, addrs);
+            // the host name as resolved by the registry (after a conflict rename it differs from the registered one)
+            add_answer_of_service_as(&mut out, &msg, "i.t.", &svc, "r.", $qtype, addrs);
             let n_ans = (if $srv { 1 } else { 0 }) + (if $txt { 1 } else { 0 });
             assert!(out.answers_count() == n_ans, "wrong set of answers for this question type");
             assert!(out.additionals().len() == if $addi { 1 } else { 0 }, "wrong additionals for this question type");
@@ -156,6 +157,7 @@ macro_rules! c06_answer_of_service {
                 let r = &out._answers()[k].0;
                 let s = r.any().downcast_ref::<DnsSrv>().unwrap();
                 assert!(s.port() == port && s.priority == prio && s.weight == weight, "SRV values differ from the registered ones");
+                assert!(s.host().as_bytes() == b"r.", "SRV target is not the resolved host name");
                 assert!(r.get_record().get_ttl() == host_ttl && r.get_cache_flush() && r.get_class() == CLASS_IN, "SRV: host TTL, cache-flush, class IN");
                 k += 1;
             }
@@ -166,6 +168,7 @@ macro_rules! c06_answer_of_service {
             if $addi {
                 let a = &out.additionals()[0];
                 assert!(a.get_type() == RRType::A && a.get_record().get_ttl() == host_ttl && a.get_cache_flush(), "address additional: host TTL (120 s class), cache-flush");
+                assert!(a.get_name().as_bytes() == b"r.", "address additional is not owned by the resolved host name");
             }
             kani::cover!(host_ttl == 120 && other_ttl == 4500, "default_ttls");
             core::mem::forget(out);
@@ -179,7 +182,7 @@ macro_rules! c06_answer_of_service {
 // @property C06
 // @maps vmap
 // @tier quick
-// @functions add_answer_of_service, DnsOutgoing::add_answer, DnsOutgoing::add_additional_answer, ServiceInfo getters
+// @functions add_answer_of_service_as, DnsOutgoing::add_answer, DnsOutgoing::add_additional_answer, ServiceInfo getters
 // @bound an SRV question for a registered instance: symbolic port/priority/weight, host TTL and other TTL (every u32), one IPv4 address on the link; no known answers
 // @oracle exactly one answer: SRV with the registered values, host TTL, cache-flush; exactly one additional: the A record with the HOST ttl and cache-flush
 // @stubs clock(overlay)
@@ -190,7 +193,7 @@ c06_answer_of_service!(c06_answer_srv, RRType::SRV, true, false, true);
 // @property C06
 // @maps vmap
 // @tier quick
-// @functions add_answer_of_service
+// @functions add_answer_of_service_as
 // @bound a TXT question for a registered instance (same symbolic service)
 // @oracle exactly one answer: TXT with the other TTL and cache-flush; no additionals
 // @stubs clock(overlay)
@@ -201,7 +204,7 @@ c06_answer_of_service!(c06_answer_txt, RRType::TXT, false, true, false);
 // @property C06
 // @maps vmap
 // @tier quick
-// @functions add_answer_of_service
+// @functions add_answer_of_service_as
 // @bound an ANY question for a registered instance (same symbolic service)
 // @oracle SRV then TXT as answers (host TTL / other TTL, cache-flush), no additionals
 // @stubs clock(overlay)
